@@ -121,7 +121,7 @@ class SetMonitor(Monitor):
 
         def judge(items, complete, exc):
             _judge_run(view, kind, up, [k], items, complete, exc, [repr(c)])
-        return attach.Replace(common.recording(result, judge, kind))
+        return attach.Replace(common.recording(result, judge, kind, lambda: len(view.members)))
 
 
 class UnionMonitor(Monitor):
@@ -155,7 +155,7 @@ class UnionMonitor(Monitor):
 
         def judge(items, complete, exc):
             _judge_run(view, kind, up, ks, items, complete, exc, [repr(c) for c in seeds][:8])
-        return attach.Replace(common.recording(result, judge, kind))
+        return attach.Replace(common.recording(result, judge, kind, lambda: len(view.members)))
 
     def raised(self, token, args, kwargs, exc):
         if token is None:
